@@ -1323,6 +1323,27 @@ class Emit:
         if s[0] == "let" and s[1][0] == "bind" and s[1][1] in self.unit.get("skip_lock_lets", []) and s[4] is not None and s[4][0] == "mcall" \
            and s[4][2] == "unwrap" and s[4][1][0] == "mcall" and s[4][1][2] == "lock":
             return []          # a mutex guard whose every use is an operation of the world (spec `recv_fx_methods`)
+        if s[0] == "let" and s[1][0] == "bind" and s[4] is not None and self.effects:
+            # `let v: io::Result<Vec<T>> = (a..b).into_par_iter().map(|i| { … }).collect();` — the closure runs for every index IN
+            # ORDER (the parallel iterator's `collect` preserves the index order; an `Err` of any element is the result)
+            e0 = s[4]
+            if e0[0] == "mcall" and e0[2] == "collect" and e0[1][0] == "mcall" and e0[1][2] == "map" and len(e0[1][3]) == 1 and e0[1][3][0][0] == "closure" \
+               and e0[1][1][0] == "mcall" and e0[1][1][2] in ("into_par_iter", "into_iter", "par_iter") and e0[1][1][1][0] in ("range", "paren") \
+               and len(e0[1][3][0][1]) == 1 and e0[1][3][0][1][0][0] == "bind" and not self.pure_expr(e0[1][3][0][2]):
+                rng_ = e0[1][1][1]
+                while rng_[0] == "paren": rng_ = rng_[1]
+                if rng_[0] == "range":
+                    clo = e0[1][3][0]; ix = lname(clo[1][0][1]); v = lname(s[1][1])
+                    body = clo[2] if clo[2][0] == "block" else ("block", [], clo[2])
+                    saved = self.cur_result; self.cur_result = True
+                    try:
+                        L = [ind + f"let {v} ← Rs.capture (do", ind + "    let mut __acc := []",
+                             ind + f"    for {ix} in {self.ex(rng_)} do", ind + "      let __x ← (do"] + self.seq(body, ind + "          ", "ret")
+                    finally:
+                        self.cur_result = saved
+                    L[-1] = L[-1] + ")"
+                    L += [ind + "      __acc := __acc ++ [__x]", ind + "    return __acc)"]
+                    return L
         if s[0] == "let" and s[1][0] == "bind" and s[4] is not None and s[4][0] == "asyncblock":
             # `let r: Result<T> = async { … }.await;` — the block runs in place; its own `?` / `return` leave the BLOCK
             body = s[4][1]
